@@ -418,6 +418,39 @@ def is_labeldoc(c):
     return "/labeldoc-" in c.get("class", "")
 
 
+def json_takes(t):
+    """would encoding/json decode the row into a map[string]string (then storedLabels' fallback is not reached)"""
+    try:
+        d = json.loads(t)
+    except ValueError:
+        return False
+    return isinstance(d, dict) and all(isinstance(v, str) for v in d.values())
+
+
+def eval_ldcases(ck, name, cases):
+    """model/ReadLabelDoc.v on the rows encoding/json refuses (byte codes): no row panics, and JSON documents + documents the
+    fallback decodes = series answered"""
+    items = []
+    for k, c in enumerate(cases):
+        texts = [cell.get("s") or "" for r in c["script"][0]["rows"] for cell in r]
+        rest = [t for t in texts if not json_takes(t)]
+        items.append("mkLD %d %s %d %d" % (k, coq_list([coq_list([str(b) for b in t.encode("utf-8")]) for t in rest]), len(texts) - len(rest), c["obs"].get("items", 0)))
+    txt = ("From Coq Require Import List.\nFrom Qryn Require Import model.ReadLabelDoc.\nImport ListNotations.\n"
+           "Definition cases : list ldcase := [\n  " + ";\n  ".join(items) + "].\n"
+           "Definition P := Eval vm_compute in map (fun c => (if fst (ld_predicted c) then 0 else 1000) + snd (ld_predicted c)) cases.\nPrint P.\n"
+           "Definition M := Eval vm_compute in ld_mismatches cases.\nPrint M.\n")
+    rc, out = ck.coq_eval(name, txt)
+    if rc != 0:
+        return None, out
+    flat = " ".join(out.split())
+    mp = re.search(r"\bP = (\[.*?\]|nil)\s*: list nat", flat)
+    mm = re.search(r"\bM = (\[.*?\]|nil)\s*: list nat", flat)
+    if not mp or not mm:
+        return None, out
+    ints = lambda t: [int(x) for x in re.findall(r"\d+", t)]
+    return {"P": ints(mp.group(1)), "M": ints(mm.group(1))}, out
+
+
 def shrink_rows(ck, c, still_bad):
     """a violating request over scripted label documents: find ONE row that violates on its own (each candidate in its
     own child process); the replay is then the request with that row's text as the whole result set"""
@@ -728,6 +761,21 @@ def run(ck):
     ck.obligation("series endpoints over %d requests / %d stored label documents (JSON and strconv.Quote forms cut at every byte position, one-byte mutants): "
                   "the answer is a JSON document holding exactly the complete documents among the rows" % (len(ldoc), sum(len(c["script"][0]["rows"]) for c in ldoc)),
                   not wrong_items, "wrong %s" % [(c["id"], c["class"], "series answered %s, complete documents %s" % (c["obs"].get("items"), c["expect_items"])) for c in wrong_items[:5]])
+    # ... and what the Coq model of the decoder says about the same rows (cut documents and corpus; not the mutants: the model's
+    # QuotedPrefix does not validate escapes)
+    tied = [c for c in judged if "labeldoc-mutant" not in c["class"] and c["obs"].get("items") is not None and c["obs"]["items"] >= 0]
+    ldres, ldout = eval_ldcases(ck, "C12_ldcases", tied) if tied else ({"P": [], "M": []}, "")
+    if ldres is None:
+        ck.obligation("label-document cases evaluated inside Coq", False, ldout[-1500:])
+        return
+    ck.obligation("correspondence: ReadLabelDoc.stored_labels_fallback (no row panics; JSON documents + documents the fallback decodes) = series answered, on %d series requests / %d rows" % (
+                      len(tied), sum(len(c["script"][0]["rows"]) for c in tied)),
+                  not ldres["M"], "mismatching %s" % [(tied[k]["id"], tied[k]["class"], "model %d" % ldres["P"][k], "observed %s" % tied[k]["obs"].get("items")) for k in ldres["M"][:6]])
+    if ldres["M"] and not FV and not wrong_items:
+        w = min((tied[k] for k in ldres["M"]), key=size_of)
+        ck.violation({"property": "C12", "kind": "model and implementation disagree on the number of series decoded from the stored label documents",
+                      "model_predicted": ldres["P"][tied.index(w)], "case": strip(w), "others": len(ldres["M"]) - 1,
+                      "broken": "correspondence ReadLabelDoc.stored_labels_fallback vs service.storedLabels"}, no_input=True)
     if FV:
         w = min((fbyid[i] for i in FV), key=size_of)
         extra = {}
@@ -953,7 +1001,8 @@ def run(ck):
     ck.extra["series_label_documents"] = {"requests": len(ldoc), "rows": sum(len(c["script"][0]["rows"]) for c in ldoc),
                                           "rows_cut_right_after_a_quoted_name_or_value": sum(1 for c in ldoc for r in c["script"][0]["rows"] if (r[0].get("s") or "").endswith('"')),
                                           "by_class": {k: sum(1 for c in ldoc if c["class"] == k) for k in sorted({c["class"] for c in ldoc})},
-                                          "series_answered": sum(c["obs"].get("items") or 0 for c in judged)}
+                                          "series_answered": sum(c["obs"].get("items") or 0 for c in judged),
+                                          "requests_compared_with_the_coq_decoder": len(tied), "series_predicted_by_the_model": sum(x % 1000 for x in ldres["P"])}
     ck.extra["statements_issued_histogram"] = {str(k): sum(1 for c in fwd if c["obs"].get("stmts") == k) for k in sorted({c["obs"].get("stmts", -1) for c in fwd})}
     ck.extra["test_only_requests"] = len(testonly)
     ck.extra["level_note_test"] = "the test-only stream is a test (response + liveness + goroutine census), not covered by a theorem"
